@@ -3,58 +3,61 @@
    Link/WriterProofs.v, Link/WsWriterProofs.v.
 
    Quantification: every configuration c (external-loop / direct-write mode, on_publish installed or not,
-   suppress_exceptions), every list of operations ops - OEnq in_cb bytes kind cbraise schedule (a packet handed
-   to _packet_queue, from inside a callback or not, with the outcomes of the send() calls made during it) and
+   suppress_exceptions), every list of operations ops on one connection (from the state reconnect() leaves:
+   empty queue, new socket, _connect_queued = False) - OEnq in_cb bytes kind cbraise schedule (a packet handed to
+   _packet_queue, from inside a callback or not, with the outcomes of the send() calls made during it) and
    OWrite schedule (loop_write()) - with every schedule: Accept k (any integer k, clipped to 0..offered; so 0 and
    partial acceptance at any position are included), Block (BlockingIOError), Fail (OSError), FailV (ValueError);
    packets and schedules of unbounded length.  [wire_of] = concatenation of the bytes accepted by the raw socket,
    [unsent] = concatenation of the not yet accepted suffixes of the queued packets in queue order,
-   [enq_bytes ops] = the packets in the order they were queued, packet i has id i.
+   [queued_bytes ops] = the packets of the connection in QUEUE order: CONNECT (kind KConn, which _packet_queue
+   puts at the head) first, every other packet behind in the order of the calls (C06_queue_order_plain, C06_queue_order_connect).
 
-   Hypothesis of every theorem: [conn_first ops = true] - CONNECT (which _packet_queue puts at the HEAD of the
-   queue since /repo commit 0ed8c5c) is the first packet queued on the connection.  Without it the full statement
-   is false on the current code: see C06_stream_full / C06_stream_refuted (finding F-C06b) below. *)
+   Hypothesis [conn_once ops = true]: at most one CONNECT is queued on the connection (reconnect() is the only
+   caller of _send_connect and starts a new connection each time).  It may come after other packets (queued from
+   on_socket_open or by another thread): they wait, nothing is offered to the transport before CONNECT is queued
+   (C06_nothing_before_connect; /repo commit 9f497e7 which repaired finding F-C06b). *)
 From PahoV Require Import Base.Prelude Link.Writer Link.WriterProofs Link.WsWriter Link.WsWriterProofs.
+
+(* ------------------------------------------------------------------ queue order *)
+Theorem C06_queue_order_plain : forall ops, forallb not_conn_op ops = true -> queued_bytes ops = enq_bytes ops.
+Proof. exact queued_bytes_plain. Qed.
+Print Assumptions C06_queue_order_plain.
+
+Theorem C06_queue_order_connect : forall early in_cb b r s rest,
+  forallb not_conn_op early = true -> forallb not_conn_op rest = true ->
+  queued_bytes (early ++ OEnq in_cb b KConn r s :: rest) = b :: enq_bytes early ++ enq_bytes rest.
+Proof. exact queued_bytes_connect. Qed.
+Print Assumptions C06_queue_order_connect.
+
+Theorem C06_nothing_before_connect : forall c ops, forallb not_conn_op ops = true ->
+  wire_of (r_trace (raw_run c ops)) = [].
+Proof. exact raw_nothing_before_connect. Qed.
+Print Assumptions C06_nothing_before_connect.
 
 (* ------------------------------------------------------------------ raw socket *)
 
 (* nothing lost, duplicated or reordered: accepted bytes ++ unsent remainder = the queued packets *)
-Definition C06_stream_full : Prop := forall c ops,
-  wire_of (r_trace (raw_run c ops)) ++ unsent (r_st (raw_run c ops)) = concat (enq_bytes ops).
-
-(* F-C06b: a packet queued and partly written before CONNECT is queued (publish() from on_socket_open in
-   direct-write mode, or from another thread) gets CONNECT inserted in front of its unsent remainder: the bytes
-   on the wire are a piece of the PUBLISH, then CONNECT, then the rest of the PUBLISH - in neither order the
-   two packets - and the PUBLISH is reported published. *)
-Theorem C06_stream_refuted :
-  exists c ops a b,
-    enq_bytes ops = [a; b]
-    /\ unsent (r_st (raw_run c ops)) = []
-    /\ wire_of (r_trace (raw_run c ops)) <> a ++ b
-    /\ wire_of (r_trace (raw_run c ops)) <> b ++ a
-    /\ In (SetPublished 0) (r_trace (raw_run c ops)).
-Proof. exact raw_stream_refuted. Qed.
-Print Assumptions C06_stream_refuted.
-
-Theorem C06_stream_partial : forall c ops, conn_first ops = true ->
-  wire_of (r_trace (raw_run c ops)) ++ unsent (r_st (raw_run c ops)) = concat (enq_bytes ops).
+Theorem C06_stream : forall c ops, conn_once ops = true ->
+  wire_of (r_trace (raw_run c ops)) ++ unsent (r_st (raw_run c ops)) = concat (queued_bytes ops).
 Proof. exact raw_stream. Qed.
-Print Assumptions C06_stream_partial.
+Print Assumptions C06_stream.
 
 (* on_publish / _set_as_published for packet i happen only for a QoS 0 PUBLISH and only at a point where the
-   bytes on the wire are exactly the packets 0..i (so its last byte was accepted, and nothing beyond it) *)
-Theorem C06_qos0_published : forall c ops tr1 e tr2 i, conn_first ops = true ->
+   bytes on the wire are exactly the packets up to and including packet i (so its last byte was accepted, and
+   nothing beyond it) *)
+Theorem C06_qos0_published : forall c ops tr1 e tr2 i, conn_once ops = true ->
   r_trace (raw_run c ops) = tr1 ++ e :: tr2 -> e = CbPublish i \/ e = SetPublished i ->
-  0 <= i
-  /\ (exists p, nth_error (hist_of ops) (Z.to_nat i) = Some p /\ p_kind p = KPub0 /\ p_id p = i)
-  /\ wire_of tr1 = concat (firstn (S (Z.to_nat i)) (enq_bytes ops)).
+  exists pre p post,
+    hist_of ops = pre ++ p :: post /\ p_kind p = KPub0 /\ p_id p = i
+    /\ wire_of tr1 = concat (map p_bytes (pre ++ [p])).
 Proof. exact raw_qos0_published. Qed.
 Print Assumptions C06_qos0_published.
 
 (* exactly once: with [done] = the packets that are completely on the wire, the _set_as_published calls are
    exactly the QoS 0 packets of [done], in order, each once (except a packet whose on_publish raised with
    suppress_exceptions off: the exception propagates and _set_as_published is skipped); same for on_publish *)
-Theorem C06_qos0_once : forall c ops, conn_first ops = true ->
+Theorem C06_qos0_once : forall c ops, conn_once ops = true ->
   let r := raw_run c ops in
   NoDup (setpub_ids (r_trace r)) /\ NoDup (cbpub_ids (r_trace r))
   /\ exists done,
@@ -66,7 +69,7 @@ Proof. exact raw_qos0_once. Qed.
 Print Assumptions C06_qos0_once.
 
 (* while bytes remain unsent want_write() is true, and if the socket is open write registration was requested *)
-Theorem C06_want_write : forall c ops, conn_first ops = true ->
+Theorem C06_want_write : forall c ops, conn_once ops = true ->
   let st := r_st (raw_run c ops) in
   unsent st <> [] -> want_write st = true /\ (sock st = true -> regw st = true).
 Proof. exact raw_want_write. Qed.
@@ -74,7 +77,7 @@ Print Assumptions C06_want_write.
 
 (* the `while True` loop of _packet_write terminates: the fuel S (sum over the queue of 1 + unsent bytes) is
    never exhausted in any reachable state, whatever the schedule *)
-Theorem C06_terminates : forall c ops, conn_first ops = true -> ~ In RcOutOfFuel (r_rcs (raw_run c ops)).
+Theorem C06_terminates : forall c ops, conn_once ops = true -> ~ In RcOutOfFuel (r_rcs (raw_run c ops)).
 Proof. exact raw_terminates. Qed.
 Print Assumptions C06_terminates.
 
@@ -84,38 +87,38 @@ Print Assumptions C06_terminates.
    forbids - unreachable, an MQTT packet has at most 2^28+4 bytes). *)
 
 Theorem C06_ws_stream : forall keyf, (forall n, length (keyf n) = 4%nat) -> forall c ops,
-  conn_first ops = true ->
-  zlen (concat (enq_bytes ops)) < 9223372036854775808 ->
+  conn_once ops = true ->
+  zlen (concat (queued_bytes ops)) < 9223372036854775808 ->
   exists chunks rest,
     deframe (wire_of (r_trace (ws_run keyf c ops))) = Some (chunks, rest)
-    /\ concat chunks ++ unsent (r_st (ws_run keyf c ops)) = concat (enq_bytes ops).
+    /\ concat chunks ++ unsent (r_st (ws_run keyf c ops)) = concat (queued_bytes ops).
 Proof. exact ws_stream. Qed.
 Print Assumptions C06_ws_stream.
 
 (* every complete frame on the raw socket: FIN, no RSV bits, opcode 2, mask bit, 4-byte key, minimal length
    form, 64-bit length below 2^63, payload of the announced length *)
 Theorem C06_ws_frames_wf : forall keyf, (forall n, length (keyf n) = 4%nat) -> forall c ops,
-  conn_first ops = true ->
-  zlen (concat (enq_bytes ops)) < 9223372036854775808 ->
+  conn_once ops = true ->
+  zlen (concat (queued_bytes ops)) < 9223372036854775808 ->
   let w := wire_of (r_trace (ws_run keyf c ops)) in
   forallb ws_frame_wf (fst (parse_frames (length w) w)) = true.
 Proof. exact ws_frames_wf. Qed.
 Print Assumptions C06_ws_frames_wf.
 
 Theorem C06_ws_qos0_published : forall keyf, (forall n, length (keyf n) = 4%nat) -> forall c ops tr1 e tr2 i,
-  conn_first ops = true ->
-  zlen (concat (enq_bytes ops)) < 9223372036854775808 ->
+  conn_once ops = true ->
+  zlen (concat (queued_bytes ops)) < 9223372036854775808 ->
   r_trace (ws_run keyf c ops) = tr1 ++ e :: tr2 -> e = CbPublish i \/ e = SetPublished i ->
-  0 <= i
-  /\ (exists p, nth_error (hist_of ops) (Z.to_nat i) = Some p /\ p_kind p = KPub0 /\ p_id p = i)
-  /\ exists chunks, deframe (wire_of tr1) = Some (chunks, [])
-                    /\ concat chunks = concat (firstn (S (Z.to_nat i)) (enq_bytes ops)).
+  exists pre p post,
+    hist_of ops = pre ++ p :: post /\ p_kind p = KPub0 /\ p_id p = i
+    /\ exists chunks, deframe (wire_of tr1) = Some (chunks, [])
+                      /\ concat chunks = concat (map p_bytes (pre ++ [p])).
 Proof. exact ws_qos0_published. Qed.
 Print Assumptions C06_ws_qos0_published.
 
 Theorem C06_ws_qos0_once : forall keyf, (forall n, length (keyf n) = 4%nat) -> forall c ops,
-  conn_first ops = true ->
-  zlen (concat (enq_bytes ops)) < 9223372036854775808 ->
+  conn_once ops = true ->
+  zlen (concat (queued_bytes ops)) < 9223372036854775808 ->
   let r := ws_run keyf c ops in
   NoDup (setpub_ids (r_trace r)) /\ NoDup (cbpub_ids (r_trace r))
   /\ exists done chunks rest,
@@ -127,13 +130,13 @@ Theorem C06_ws_qos0_once : forall keyf, (forall n, length (keyf n) = 4%nat) -> f
 Proof. exact ws_qos0_once. Qed.
 Print Assumptions C06_ws_qos0_once.
 
-Theorem C06_ws_want_write : forall keyf c ops, conn_first ops = true ->
+Theorem C06_ws_want_write : forall keyf c ops, conn_once ops = true ->
   let st := r_st (ws_run keyf c ops) in
   unsent st <> [] -> want_write st = true /\ (sock st = true -> regw st = true).
 Proof. exact ws_want_write. Qed.
 Print Assumptions C06_ws_want_write.
 
-Theorem C06_ws_terminates : forall keyf c ops, conn_first ops = true ->
+Theorem C06_ws_terminates : forall keyf c ops, conn_once ops = true ->
   ~ In RcOutOfFuel (r_rcs (ws_run keyf c ops)).
 Proof. exact ws_terminates. Qed.
 Print Assumptions C06_ws_terminates.
@@ -141,45 +144,64 @@ Print Assumptions C06_ws_terminates.
 (* ------------------------------------------------------------------ non-vacuity *)
 Definition ex_cfg := mkcfg true true false.           (* external loop, on_publish installed *)
 Definition ex_ops : list op :=
-  [ OEnq false [48; 3; 0; 1; 116] KPub0 false [];     (* QoS 0 PUBLISH, topic "t", 5 bytes *)
+  [ OEnq false [16; 0] KConn false [];                (* CONNECT (2 bytes stand in for the real packet) *)
+    OEnq false [48; 3; 0; 1; 116] KPub0 false [];     (* QoS 0 PUBLISH, topic "t", 5 bytes *)
     OEnq false [192; 0] KOther false [];              (* PINGREQ *)
-    OWrite [Accept 2; Block];                         (* 2 bytes, then EAGAIN *)
+    OWrite [Accept 2; Accept 2; Block];               (* CONNECT, 2 bytes of the PUBLISH, then EAGAIN *)
     OWrite [Accept 0];                                (* send() returns 0 *)
-    OWrite [Accept 1; Accept 5] ].                    (* 1 byte, the rest of packet 0, then all of packet 1 *)
+    OWrite [Accept 1; Accept 5] ].                    (* 1 byte, the rest of the PUBLISH, then all of PINGREQ *)
 
-Example C06_ex_conn_first : conn_first ex_ops = true
-  /\ conn_first (OEnq false [16; 2; 0; 0] KConn false [Accept 1; Block] :: ex_ops) = true.
-Proof. split; reflexivity. Qed.
+(* the hypothesis is satisfiable: CONNECT first; no CONNECT; CONNECT after other packets; two CONNECTs are excluded *)
+Example C06_ex_conn_once : conn_once ex_ops = true
+  /\ conn_once (tl ex_ops) = true
+  /\ conn_once (tl ex_ops ++ [OEnq false [16; 2; 0; 0] KConn false []]) = true
+  /\ conn_once [OEnq false [16; 2; 0; 0] KConn false []; OEnq false [16; 2; 0; 0] KConn false []] = false.
+Proof. repeat split; reflexivity. Qed.
 
 Example C06_ex_raw :
   let r := raw_run ex_cfg ex_ops in
-  wire_of (r_trace r) = [48; 3; 0; 1; 116; 192; 0]
-  /\ r_trace r = [RegW; Wire [48; 3]; Acc [48; 3]; Wire [0]; Acc [0]; Wire [1; 116]; Acc [1; 116];
-                  CbPublish 0; SetPublished 0; Wire [192; 0]; Acc [192; 0]; UnregW]
+  wire_of (r_trace r) = [16; 0; 48; 3; 0; 1; 116; 192; 0]
+  /\ r_trace r = [RegW; Wire [16; 0]; Acc [16; 0]; Wire [48; 3]; Acc [48; 3]; Wire [0]; Acc [0];
+                  Wire [1; 116]; Acc [1; 116]; CbPublish 1; SetPublished 1; Wire [192; 0]; Acc [192; 0]; UnregW]
   /\ outq (r_st r) = [].
 Proof. vm_compute. repeat split. Qed.
 
 (* the original F-C06a witness: one QoS 0 PUBLISH over WebSockets in direct-write mode, the raw socket accepts
-   3 bytes of the 11-byte frame: the packet stays queued, want_write is true, nothing is reported; the next
+   3 bytes of the 11-byte frame: the packet stays queued, want_write is true, nothing is reported; a later
    loop_write flushes the frame and only then the publication is reported *)
 Definition ex_key (n : nat) : list Z := [1; 2; 3; 4].
+Definition ex_connect : op := OEnq false [16; 0] KConn false [].
 Example C06_ex_keys : forall n, length (ex_key n) = 4%nat.
 Proof. reflexivity. Qed.
-Example C06_ex_size : zlen (concat (enq_bytes ex_ops)) < 9223372036854775808.
+Example C06_ex_size : zlen (concat (queued_bytes ex_ops)) < 9223372036854775808.
 Proof. reflexivity. Qed.
 
 Example C06_ex_ws_partial :
-  let r := ws_run ex_key (mkcfg false true false) [OEnq false [48; 3; 0; 1; 116] KPub0 false [Accept 3]] in
-  r_trace r = [Wire [130; 133; 1]; RegW]
+  let r := ws_run ex_key (mkcfg false true false)
+             [ex_connect; OEnq false [48; 3; 0; 1; 116] KPub0 false [Accept 3]] in
+  r_trace r = [Wire [130; 130; 1; 2; 3; 4; 17; 2]; Acc [16; 0]; Wire [130; 133; 1]; RegW]
   /\ want_write (r_st r) = true /\ map p_pos (outq (r_st r)) = [0]
-  /\ deframe (wire_of (r_trace r)) = Some ([], [130; 133; 1]).
+  /\ deframe (wire_of (r_trace r)) = Some ([[16; 0]], [130; 133; 1]).
 Proof. vm_compute. repeat split. Qed.
 
 Example C06_ex_ws_flushed :
   let r := ws_run ex_key (mkcfg false true false)
-             [OEnq false [48; 3; 0; 1; 116] KPub0 false [Accept 3]; OWrite [Accept 2]; OWrite [Accept 100]] in
-  r_trace r = [Wire [130; 133; 1]; RegW; Wire [2; 3]; Wire [4; 49; 1; 3; 5; 117]; Acc [48; 3; 0; 1; 116];
-               CbPublish 0; SetPublished 0; UnregW]
-  /\ deframe (wire_of (r_trace r)) = Some ([[48; 3; 0; 1; 116]], [])
+             [ex_connect; OEnq false [48; 3; 0; 1; 116] KPub0 false [Accept 3]; OWrite [Accept 2]; OWrite [Accept 100]] in
+  r_trace r = [Wire [130; 130; 1; 2; 3; 4; 17; 2]; Acc [16; 0]; Wire [130; 133; 1]; RegW; Wire [2; 3];
+               Wire [4; 49; 1; 3; 5; 117]; Acc [48; 3; 0; 1; 116]; CbPublish 1; SetPublished 1; UnregW]
+  /\ deframe (wire_of (r_trace r)) = Some ([[16; 0]; [48; 3; 0; 1; 116]], [])
   /\ outq (r_st r) = [].
 Proof. vm_compute. repeat split. Qed.
+
+(* the F-C06b witness on the repaired code (9f497e7): a QoS 0 PUBLISH queued in direct-write mode before CONNECT
+   (publish() from on_socket_open; schedule: 3 bytes, then 0) is not offered to the socket; CONNECT goes out
+   first, then the intact PUBLISH *)
+Example C06_ex_early_publish :
+  let r := raw_run (mkcfg false true false)
+             [ OEnq false [48; 4; 0; 1; 116; 120] KPub0 false [Accept 3; Accept 0];
+               OEnq false [16; 2; 0; 0] KConn false [Accept 3; Accept 0];
+               OWrite [] ] in
+  wire_of (r_trace r) = [16; 2; 0; 0; 48; 4; 0; 1; 116; 120]
+  /\ r_trace r = [RegW; Wire [16; 2; 0]; Acc [16; 2; 0]; Wire [0]; Acc [0];
+                  Wire [48; 4; 0; 1; 116; 120]; Acc [48; 4; 0; 1; 116; 120]; CbPublish 0; SetPublished 0; UnregW].
+Proof. vm_compute. split; reflexivity. Qed.
